@@ -500,7 +500,7 @@ static Outcome run(tape_t const& tape)
             // sync_wait from the main (non-pika) thread
             try
             {
-                MainWaitingForSignal mw;
+                MainWaiting mw;    // (sync_wait's internal signal is not observable: only the generic detector applies)
                 P p = pika::this_thread::experimental::sync_wait(build(*c.term, 0));
                 got_kind = 0;
                 got_v = p.v;
@@ -513,10 +513,12 @@ static Outcome run(tape_t const& tape)
         {
             auto os = ex::connect(build(*c.term, 0), TermRecv{&term});
             ex::start(os);
+            G().awaited_signal_missing = [&] { return term.signals.load() == 0; };
             {
                 MainWaitingForSignal mw;
                 term.done.acquire();
             }
+            G().awaited_signal_missing = nullptr;
             // grace: let everything settle, then look for a second signal
             {
                 MainWaiting mw;
